@@ -40,41 +40,63 @@ Section SearchDefRun.
         exists c. exact Hc.
   Qed.
 
-  Theorem searchdef_tree_is_sd_run d :
-    run_searchdef_tree line omatch ohint d l x_searchdef_run =
+  Theorem searchdef_tree_is_sd_run d gate leaves :
+    (forall h n, gate h n = h) -> (forall m, leaves m = m) ->
+    run_searchdef_tree line omatch ohint d l gate leaves x_searchdef_run =
     Some (sd_run line omatch ohint d l).
   Proof.
+    intros Hgate Hleaves.
     unfold run_searchdef_tree, x_searchdef_run, sd_run.
-    destruct (s_hint d) as [h|] eqn:Eh.
-    - cbn -[for_iter]. rewrite Eh. cbn -[for_iter].
-      destruct (ohint h l); cbn -[for_iter]; [|reflexivity].
+    cbn -[for_iter]. rewrite Hgate.
+    assert (Hloop : forall s, rs_ret s = None -> rs_out s = None ->
+      match
+        for_iter rst
+          (fun s0 : rst =>
+             match
+               (if leaves (is_some (omatch (rs_cur s0) l))
+                then XOk (mkRst (rs_hint s0) (omatch (rs_cur s0) l)
+                                (rs_cur s0) (rs_out s0)) CBrk
+                else XOk (mkRst (rs_hint s0) (omatch (rs_cur s0) l)
+                                (rs_cur s0) (rs_out s0)) CNorm)
+             with
+             | XOk s1 CNorm => XOk s1 CNorm
+             | other => other
+             end)
+          (map (fun (p : Z) (s0 : rst) =>
+                  mkRst (rs_hint s0) (rs_ret s0) p (rs_out s0)) (s_pats d)) s
+      with
+      | XOk s1 CNorm => rs_ret s1 = first_match line omatch (s_pats d) l
+      | _ => False
+      end).
+    { intros s Hr Ho.
       match goal with
-      | |- context [for_iter rst ?run (map ?b ?pats) ?s] =>
+      | |- context [for_iter rst ?run ?steps s] =>
           assert (Hrun : forall s0, run s0 =
                     if is_some (omatch (rs_cur s0) l)
                     then XOk (mkRst (rs_hint s0) (omatch (rs_cur s0) l)
                                     (rs_cur s0) (rs_out s0)) CBrk
                     else XOk (mkRst (rs_hint s0) (omatch (rs_cur s0) l)
                                     (rs_cur s0) (rs_out s0)) CNorm)
-            by (intros s0; destruct (omatch (rs_cur s0) l); reflexivity);
-          destruct (for_iter_patterns run Hrun pats s eq_refl) as [c Hc];
+            by (intros s0; rewrite Hleaves;
+                destruct (omatch (rs_cur s0) l); reflexivity);
+          destruct (for_iter_patterns run Hrun (s_pats d) s Hr) as [c Hc];
           rewrite Hc
       end.
-      reflexivity.
-    - cbn -[for_iter]. rewrite Eh. cbn -[for_iter].
+      reflexivity. }
+    destruct (s_hint d) as [h|]; cbn -[for_iter].
+    - destruct (ohint h l); cbn -[for_iter]; [|reflexivity].
       match goal with
-      | |- context [for_iter rst ?run (map ?b ?pats) ?s] =>
-          assert (Hrun : forall s0, run s0 =
-                    if is_some (omatch (rs_cur s0) l)
-                    then XOk (mkRst (rs_hint s0) (omatch (rs_cur s0) l)
-                                    (rs_cur s0) (rs_out s0)) CBrk
-                    else XOk (mkRst (rs_hint s0) (omatch (rs_cur s0) l)
-                                    (rs_cur s0) (rs_out s0)) CNorm)
-            by (intros s0; destruct (omatch (rs_cur s0) l); reflexivity);
-          destruct (for_iter_patterns run Hrun pats s eq_refl) as [c Hc];
-          rewrite Hc
-      end.
-      reflexivity.
+      | |- context [for_iter rst ?run ?steps ?s] =>
+          specialize (Hloop s eq_refl eq_refl);
+          destruct (for_iter rst run steps s) as [s1 c| |]
+      end; try contradiction.
+      destruct c; try contradiction. cbn. rewrite Hloop. reflexivity.
+    - match goal with
+      | |- context [for_iter rst ?run ?steps ?s] =>
+          specialize (Hloop s eq_refl eq_refl);
+          destruct (for_iter rst run steps s) as [s1 c| |]
+      end; try contradiction.
+      destruct c; try contradiction. cbn. rewrite Hloop. reflexivity.
   Qed.
 End SearchDefRun.
 
@@ -262,13 +284,15 @@ Section Flush.
 End Flush.
 
 (* --------------------------------------------- gluing shape and reading *)
-Lemma searchdef_on_shape shape :
+Lemma searchdef_on_shape shape gate leaves :
   shape = Some x_searchdef_run ->
+  (forall h n, gate h n = h) -> (forall m, leaves m = m) ->
   forall (line : Type) omatch ohint d (l : line),
-    on_shape shape (run_searchdef_tree line omatch ohint d l) =
+    on_shape shape (run_searchdef_tree line omatch ohint d l gate leaves) =
     Some (sd_run line omatch ohint d l).
 Proof.
-  intros -> line omatch ohint d l. apply searchdef_tree_is_sd_run.
+  intros -> Hg Hl line omatch ohint d l.
+  apply searchdef_tree_is_sd_run; assumption.
 Qed.
 
 Lemma apply_single_on_shape shape src :
